@@ -236,7 +236,23 @@ def inject_registered_payloads(rng, tmpl, spec):
         tb = tmpl.get_block(bname)
         for var in tb.variables:
             key = (tmpl.name, bname, var.name)
-            if key not in se.SUBFIELD_SERIALIZERS or var.type not in (MsgType.MVT_VARIABLE, MsgType.MVT_FIXED):
+            if key not in se.SUBFIELD_SERIALIZERS:
+                continue
+            if var.type not in (MsgType.MVT_VARIABLE, MsgType.MVT_FIXED):
+                # an integer field whose meaning is switched by a sibling (ObjectUpdate State by PCode, ...): give the
+                # sibling one of the values that select a sub-serializer, otherwise the identity option is all that runs
+                try:
+                    ctxs = c09.contexts_for(key, se.SUBFIELD_SERIALIZERS[key])
+                except Exception:
+                    ctxs = []
+                if len(ctxs) > 1:
+                    for ent in entries:
+                        if rng.random() < 0.7:
+                            _, cblock, _ = rng.choice(ctxs)
+                            for sk, sv in cblock.vars.items():
+                                if sk in ent and sk != var.name and isinstance(sv, int):
+                                    ent[sk] = ["i", int(sv)]
+                                    touched = True
                 continue
             for ent in entries:
                 p, siblings = registered_payload(rng, key, ent)
@@ -321,13 +337,28 @@ def safe_fuzz(ctx, rng):
         ctx.nontrivial(("fuzz", text))
 
 
+def _context_switched_int_keys():
+    out = set()
+    for key, ser in se.SUBFIELD_SERIALIZERS.items():
+        try:
+            if len(c09.contexts_for(key, ser)) > 1 and c09.wire_var(key) is not None and \
+                    c09.wire_var(key).type not in (MsgType.MVT_VARIABLE, MsgType.MVT_FIXED):
+                out.add(key)
+        except Exception:
+            pass
+    return out
+
+
+_CONTEXT_SWITCHED_INT_KEYS = _context_switched_int_keys()
+
+
 def run(ctx):
     install_monitor()
     rng = ctx.rng
     templates = gen_msg.all_templates()
     per_template = ctx.pick(8, 16)
     for ti, tmpl in enumerate(templates):
-        has_registered = any((tmpl.name, b.name, v.name) in se.SUBFIELD_SERIALIZERS and
+        has_registered = any((tmpl.name, b.name, v.name) in _CONTEXT_SWITCHED_INT_KEYS or (tmpl.name, b.name, v.name) in se.SUBFIELD_SERIALIZERS and
                              v.type in (MsgType.MVT_VARIABLE, MsgType.MVT_FIXED) for b in tmpl.blocks for v in b.variables)
         for k in range(per_template * (5 if has_registered else 1)):
             if ctx.quick and not ctx.mine(ti * per_template + k):
